@@ -1367,6 +1367,15 @@ func (w *World) lenFromDef(v ssa.Value, lib libFacts, fn *ssa.Function, site ssa
 	case *ssa.ChangeType:
 		return w.lenFromDef(x.X, lib, fn, site)
 	case *ssa.UnOp:
+		// a location read back right after it was written (same block, nothing in between that may
+		// change it) holds the value written: `x.f = append(x.f, e)` followed by `x.f[len(x.f)-1]`
+		if x.Op == token.MUL {
+			if sv := w.storedJustBefore(x); sv != nil {
+				if l, h, why := w.lenFromDef(sv, lib, fn, site); why != "" {
+					return l, h, "read back after the store of: " + why
+				}
+			}
+		}
 		// a field with a single make(n) writer in the whole program
 		if x.Op == token.MUL {
 			if fa, ok := x.X.(*ssa.FieldAddr); ok {
@@ -1377,6 +1386,40 @@ func (w *World) lenFromDef(v ssa.Value, lib libFacts, fn *ssa.Function, site ssa
 		}
 	}
 	return lo, hi, ""
+}
+
+// storedJustBefore: the value that the load of a field or local cell reads because the same location
+// (same access path) was stored to earlier in the load's block and no instruction between that store
+// and the load may change it (another store to the field through any base, a call that stores to it).
+func (w *World) storedJustBefore(load *ssa.UnOp) ssa.Value {
+	key := w.keyOf(load)
+	if key.reg != nil || (key.cell == nil && key.fld == nil) {
+		return nil
+	}
+	flds := pathFields(load)
+	b := load.Block()
+	if b == nil {
+		return nil
+	}
+	for i := idxIn(b, load) - 1; i >= 0; i-- {
+		ins := b.Instrs[i]
+		if st, ok := ins.(*ssa.Store); ok {
+			switch a := st.Addr.(type) {
+			case *ssa.FieldAddr:
+				if key.cell == nil && fieldVar(a) == key.fld && rootedPath(a) == key.path {
+					return st.Val
+				}
+			case *ssa.Alloc:
+				if key.cell != nil && ssa.Value(a) == key.cell {
+					return st.Val
+				}
+			}
+		}
+		if w.killsKey(ins, key, flds) {
+			return nil
+		}
+	}
+	return nil
 }
 
 // singleMakeLen: every store to the field in the repo stores make(_, const n) (same n).
